@@ -1065,6 +1065,9 @@ impl<T: Send> AsyncReceiver<T> {
         guard
           .waiting_async_receivers
           .retain(|w| w.state != state_ptr);
+      } else if self.state.load(Ordering::SeqCst) == core::STATE_SUCCESS_SPACE {
+        // the pending stream poll was already woken for a buffered item it will not take
+        self.shared.forward_receiver_wake();
       }
     }
     let shared = unsafe { std::ptr::read(&self.shared) };
@@ -1116,6 +1119,9 @@ impl<T: Send> Drop for AsyncReceiver<T> {
         guard
           .waiting_async_receivers
           .retain(|w| w.state != state_ptr);
+      } else if self.state.load(Ordering::SeqCst) == core::STATE_SUCCESS_SPACE {
+        // the pending stream poll was already woken for a buffered item it will not take
+        self.shared.forward_receiver_wake();
       }
     }
   }
